@@ -147,6 +147,20 @@ def check(chk):
     n = 1500 if thorough else 100
     nshapes = run_shapes(chk, thorough)
     judged, ncases = gm.run_cases(chk, "C04", "defer", n, 40, configs, sd, "defer")
+    # layer B of the machine: llgo keeps the panic in flight in one slot per goroutine (PanicSlot = TRUE); what that model
+    # predicts for the fixed cases is compared with what the compiled code printed (report only: it explains the two
+    # known deviations, and tells when the runtime's representation changes)
+    from . import gogen
+    fixed = [(cid, c) for cid, name, c in gogen.fixed_cases("defer")]
+    names = {cid: name for cid, name, c in gogen.fixed_cases("defer")}
+    predB, statsB = gm.predict(fixed, chk.rd.sub("tlc-slot"), "slot", cfg="machine_slot.cfg")
+    for res in statsB:
+        chk.add_tlc(res, "GoMachine/PanicSlot")
+    real = chk.cov.pop("fixed_case_outputs", {})
+    agree = {names[cid]: (list(real.get(names[cid]) or [None, None])[0] == predB[cid][0] and list(real.get(names[cid]) or [None, None])[1] == predB[cid][1])
+             for cid in predB if names[cid] in real}
+    chk.cov["layerB_panic_slot"] = {"fixed_cases_compared": len(agree), "real_output_equals_slot_model": sum(agree.values()),
+                                    "differing": sorted(k for k, v in agree.items() if not v)}
     # negative control: a corrupted prediction must be noticed by the comparison
     probe = ({1: (["# p 1"], "# END OK")}, {1: (["# p 2"], "# END OK")})
     if probe[0][1] == probe[1][1]:
